@@ -511,7 +511,7 @@ func (g *HistGen) Next() Op {
 			upd := bson.D{{Key: "$set", Value: bson.D{{Key: "a.$[" + id + "]", Value: int32(9)}}}}
 			with := Op{Kind: UpdateMany, DB: db, Coll: coll, Filter: bson.D{}, Update: upd, ArrayFilters: []bson.D{{{Key: id, Value: bson.D{{Key: "$gte", Value: int32(2)}}}}}}
 			without := Op{Kind: UpdateMany, DB: db, Coll: coll, Filter: bson.D{}, Update: gen.CloneDoc(upd)}
-			op.Models = append([]Op{with, without}, op.Models...)
+			op.Models = append(op.Models, with, without) // (at the end: an ordered bulk stops at the rejected model)
 		}
 	case CreateIndex:
 		op.Index = g.IndexSpec()
